@@ -18,6 +18,39 @@ pub struct MatchCase {
     pub pats: Vec<Tm>,
     /// multi-patterns: equations (var, node whose children are variables)
     pub multi: Vec<Vec<(String, Tm)>>,
+    /// how the slots of the patterns are spelled: 0 = like the terms ($a, $b, ..); 1 = with the names of parameter slots of
+    /// classes that exist in the e-graph when the pattern is parsed ($f<n>: the user happens to choose names the library
+    /// invented - C17's "never capture a user slot"); 2 = $f0, $f1, ..; 3 = numeric
+    #[serde(default)]
+    pub pat_naming: u8,
+}
+
+/// the naming of pattern slots for a case (see `MatchCase::pat_naming`)
+pub fn pattern_naming<L: Language, N: Analysis<L>>(eg: &EGraph<L, N>, kind: u8) -> Naming {
+    match kind {
+        1 => {
+            let mut names: Vec<String> = Vec::new();
+            for i in eg.ids() {
+                for s in eg.slots(i) {
+                    let n = s.to_string()[1..].to_string();
+                    if !names.contains(&n) {
+                        names.push(n);
+                    }
+                }
+            }
+            names.sort();
+            // model names are small numbers (alphabet, binder names up to ~50): fill up with textual names
+            let mut k = 0;
+            while names.len() < 256 {
+                names.push(format!("pn{}", k));
+                k += 1;
+            }
+            Naming::Table(names)
+        }
+        2 => Naming::FreshLike,
+        3 => Naming::Numeric,
+        _ => Naming::Alpha,
+    }
 }
 
 pub fn gen_simple_pat(sig: &LangSig, alphabet: usize, src: &mut Src, depth: usize, max_depth: usize) -> Tm {
@@ -192,14 +225,19 @@ fn pat_vars(p: &Tm) -> BTreeSet<String> {
     p.subterms().iter().filter(|s| is_pvar(s)).map(|s| pvar_name(s).to_string()).collect()
 }
 
-fn run(c: &MatchCase, obs: &mut Obs) -> Result<(), String> {
+pub fn run(c: &MatchCase, obs: &mut Obs) -> Result<(), String> {
     crate::with_lang!(c.base.lang, L => run_l::<L>(c, obs))
 }
 
 fn run_l<L: Language + 'static>(c: &MatchCase, obs: &mut Obs) -> Result<(), String> {
-    let nm = Naming::Alpha;
     let mut eg: EGraph<L> = new_egraph((), c.base.extraction_subst);
     let st = drive::<L, ()>(&c.base, &mut eg, &mut |_, _, _| Ok(()))?;
+    let nm = pattern_naming(&eg, c.pat_naming);
+    match c.pat_naming {
+        1 => obs.label("pattern-slots-named-like-class-slots"),
+        2 | 3 => obs.label("pattern-slots-f<n>-or-numeric"),
+        _ => {}
+    }
     let tracked = st.handles.clone();
     let before = fingerprint(&eg, &tracked);
     let pr = eg.progress();
@@ -263,12 +301,18 @@ fn run_l<L: Language + 'static>(c: &MatchCase, obs: &mut Obs) -> Result<(), Stri
     Ok(())
 }
 
-fn strategy(lang: LangId) -> BoxedStrategy<MatchCase> {
+pub fn strategy(lang: LangId) -> BoxedStrategy<MatchCase> {
     let mut cfg = MixedCfg::for_lang(lang);
     cfg.max_ops = 7;
     let sig = lang.sig();
-    (mixed_strategy(cfg), proptest::collection::vec(proptest::collection::vec(any::<u16>(), 0..30), 1..5), proptest::collection::vec(proptest::collection::vec(any::<u16>(), 0..30), 0..4))
-        .prop_map(move |(base, pch, mch)| {
+    (mixed_strategy(cfg), proptest::collection::vec(proptest::collection::vec(any::<u16>(), 0..30), 1..5), proptest::collection::vec(proptest::collection::vec(any::<u16>(), 0..30), 0..4), any::<u8>())
+        .prop_map(move |(base, pch, mch, pn)| {
+            let pat_naming = match pn % 10 {
+                0..=4 => 0u8,
+                5..=7 => 1,
+                8 => 2,
+                _ => 3,
+            };
             let terms = base.terms();
             let pats = pch
                 .iter()
@@ -309,7 +353,7 @@ fn strategy(lang: LangId) -> BoxedStrategy<MatchCase> {
                     gen_multi(&sig, &mut src)
                 })
                 .collect();
-            MatchCase { base, pats, multi }
+            MatchCase { base, pats, multi, pat_naming }
         })
         .boxed()
 }
@@ -324,13 +368,14 @@ pub fn property(tier: Tier) -> Property {
             panic_is_violation: false,
             render: |c: &MatchCase| {
                 format!(
-                    "{} patterns={:?} multi={:?}",
+                    "{} pattern-slot-naming={} patterns={:?} multi={:?}",
                     c.base.render(),
+                    ["as-written", "names-of-existing-class-slots", "$f<n>", "numeric"][c.pat_naming.min(3) as usize],
                     c.pats.iter().map(|p| render_pat(p, &Naming::Alpha)).collect::<Vec<_>>(),
                     c.multi.iter().map(|e| e.iter().map(|(v, t)| format!("?{} == {}", v, render_pat(t, &Naming::Alpha))).collect::<Vec<_>>().join(", ")).collect::<Vec<_>>()
                 )
             },
-            rule: "a reachable e-graph (mixed history with symmetric / redundant / self-referential unions and rewriting), 1-4 patterns, half of them random (depth <= 3, repeated variables, free and bound slots, also unmatched ones) and half obtained from inserted terms by replacing subterms with (often repeated) variables and 0-3 multi-patterns (random ones with 1-3 equations and shared variables, and ones obtained by flattening one or two inserted (sub)terms into up to 5 equations (equal subterms share a variable), sometimes with two variables or two slot names identified); every returned substitution is total, its instance looks up without inserting, multi-pattern equations hold, fingerprint unchanged; non-trivial = at least one match on an e-graph with an effective union; distinct by rendered case",
+            rule: "a reachable e-graph (mixed history with symmetric / redundant / self-referential unions and rewriting), 1-4 patterns, half of them random (depth <= 3, repeated variables, free and bound slots, also unmatched ones; pattern slots spelled like the terms' slots, or with the names of parameter slots of existing classes, or $f<n>, or numeric) and half obtained from inserted terms by replacing subterms with (often repeated) variables and 0-3 multi-patterns (random ones with 1-3 equations and shared variables, and ones obtained by flattening one or two inserted (sub)terms into up to 5 equations (equal subterms share a variable), sometimes with two variables or two slot names identified); every returned substitution is total, its instance looks up without inserting, multi-pattern equations hold, fingerprint unchanged; non-trivial = at least one match on an e-graph with an effective union; distinct by rendered case",
             case_timeout_s: tier.pick(30, 120),
             exhaustive: false,
         }));
